@@ -120,6 +120,41 @@ ASSUMPTIONS = [
     "effects; a module-level helper name denotes the def of that name",
 ]
 
+# rules/c12_sortkey.py (R12.7)
+EXPLANATION += (
+    "  R12.7 (rules/c12_sortkey.py) the canonical order is computed on the "
+    "state that is encoded: Node.__lt__ sorts by _ToTuple, i.e. by str() of "
+    "the fields, i.e. by the __str__/__repr__ of the nodes below.  For every "
+    "node class with a hand-written __eq__ the rule derives from the schema "
+    "the fields that __eq__ never reads but the rendering does (generated "
+    "__repr__ prints every field): today ClassType.cls - equal trees sort "
+    "differently depending on whether the class pointers are filled in.  "
+    "Every visitor SerializeAst applies to the lineage of the exported tree "
+    "(step functions inlined, visitor objects bound to a local followed) is "
+    "resolved to its class (through re-exports and imports, with its "
+    "resolvable base classes) and classified by what it does to such a field: "
+    "reset (`node.F = None` as a top-level statement of Enter/Visit/Leave"
+    "<Class>), set (any other store to `.F`, setattr, or a constructor / "
+    "Replace of the class that passes a non-None value on) or nothing.  On "
+    "every path a resetting visitor must have been applied, and no setting "
+    "one since, when CanonicalOrderingVisitor is applied AND when "
+    "SerializableAst(...) is built: clearing the pointers after the sort "
+    "(seeded C12-r3m1) leaves the pointer-free tree that is encoded ordered by "
+    "keys it no longer has, so Serialize(Decode(Serialize(x))) differs.  Blind "
+    "spots: the ORDER of a field that equality treats as a set "
+    "(_SetOfTypes.type_list) is normalised by the canonical ordering itself "
+    "and not tracked; a visitor that merely passes the field on "
+    "(ClassType(new_name, node.cls)) counts as setting it, so moving "
+    "RenameModuleVisitor between the clearing and the sort would be "
+    "reported although it copies None; lookup caches (_name2item) are part of "
+    "the generated equality, hence not equality-blind, and stay with R12.3.")
+ASSUMPTIONS += [
+    "R12.7: str() of a tuple/list/dict renders its elements with repr(), of a "
+    "node with its __str__; msgspec's generated __repr__ prints every struct "
+    "field; the visitor framework's own base class (Visitor) writes no node "
+    "field",
+]
+
 VISITORS = "pytype/pytd/visitors.py"
 BOOLEQ = "pytype/pytd/booleq.py"
 
@@ -1436,8 +1471,10 @@ def _qualname(mod, node):
 
 
 PYI_TYPES = "pytype/pyi/types.py"
-_FLOAT_ARM = ("    elif self.type == \"float\":\n"
-              "      raise ParseError(f\"Invalid type `float` in Literal[{self.value}].\")\n")
+_FLOAT_ARM = ("    elif self.type in (\"float\", \"complex\"):\n"
+              "      raise ParseError(\n"
+              "          f\"Invalid type `{self.type}` in Literal[{self.value}].\"\n"
+              "      )\n")
 
 _SET_EQ = ("    if self is other:\n      return True\n"
            "    if isinstance(other, type(self)):\n"
@@ -1708,10 +1745,8 @@ VARIANTS = [
                      "  def LeaveTypeDeclUnit", "  def LeaveTypeDeclUnit")]},
     {"name": "twin-cleaners-assign-their-result", "rule": "R12.3", "file": SERIALIZE, "expect": "silent",
      "old": "  ast.Visit(ClearLookupCache())\n", "new": "  ast = ast.Visit(ClearLookupCache())\n"},
-    {"name": "twin-clear-pointers-after-canonical", "rule": "R12.3", "expect": "silent",
-     "edits": [
-         (SERIALIZE, "  ast.Visit(visitors.ClearClassPointers())\n  ast = ast.Visit(visitors.CanonicalOrderingVisitor())\n",
-          "  ast = ast.Visit(visitors.CanonicalOrderingVisitor())\n  ast.Visit(visitors.ClearClassPointers())\n")]},
+    # (clearing the pointers AFTER the canonical ordering is not a twin: it is the
+    # seeded defect C12-r3m1 and a must-fire variant of R12.7, rules/c12_sortkey.py)
     {"name": "unknown-visitor-after-canonical", "rule": "R12.3", "file": SERIALIZE, "expect": "error",
      "old": "  ast.Visit(ClearLookupCache())\n",
      "new": "  ast = ast.Visit(visitors.RemoveUnknownClasses())\n  ast.Visit(ClearLookupCache())\n"},
@@ -1869,11 +1904,17 @@ VARIANTS = [
      "old": 'keywords.append(("total", pytd.Literal(False)))',
      "new": 'keywords.append(("total", pytd.Literal(None)))'},
     {"name": "float-literals-let-through", "rule": "R12.6", "file": PYI_TYPES, "expect": "fire",
-     "old": _FLOAT_ARM, "new": "    elif self.type == \"complex\":\n" + _FLOAT_ARM.split("\n", 1)[1]},
-    {"name": "twin-complex-rejected-like-float", "rule": "R12.6", "file": PYI_TYPES,
+     "old": "    elif self.type in (\"float\", \"complex\"):\n",
+     "new": "    elif self.type == \"complex\":\n"},
+    {"name": "complex-literals-let-through", "rule": "R12.6", "file": PYI_TYPES, "expect": "fire",
+     "old": "    elif self.type in (\"float\", \"complex\"):\n",
+     "new": "    elif self.type == \"float\":\n"},
+    {"name": "twin-float-and-complex-rejected-in-separate-arms", "rule": "R12.6", "file": PYI_TYPES,
      "expect": "silent", "old": _FLOAT_ARM,
-     "new": "    elif self.type in (\"float\", \"complex\"):\n"
-            "      raise ParseError(f\"Invalid type `{self.type}` in Literal[{self.value}].\")\n"},
+     "new": "    elif self.type == \"float\":\n"
+            "      raise ParseError(f\"Invalid type `float` in Literal[{self.value}].\")\n"
+            "    elif self.type == \"complex\":\n"
+            "      raise ParseError(f\"Invalid type `complex` in Literal[{self.value}].\")\n"},
     {"name": "twin-literal-built-per-arm", "rule": "R12.6", "file": PYI_TYPES, "expect": "silent",
      "old": "    if self.type in _STRING_TYPES:\n      val = self.repr_str()\n" + _FLOAT_ARM
             + "    else:\n      val = self.value\n    return pytd.Literal(val)\n",
@@ -1887,6 +1928,6 @@ VARIANTS = [
           "    if self.type in (\"str\", \"unicode\"):\n      val = self.repr_str()\n"
           "    elif self.type == \"bytes\":\n      val = repr(self.value)\n"),
          (PYI_TYPES, _FLOAT_ARM,
-          "    elif self.type in (\"float\", \"complex\"):\n"
+          "    elif self.type == \"complex\" or self.type == \"float\":\n"
           "      raise ParseError(f\"Invalid type `{self.type}` in Literal[{self.value}].\")\n")]},
 ]
